@@ -65,6 +65,9 @@ func init() {
 		if p == "c01" || p == "c03" || p == "c04" {
 			gen = func(r *rand.Rand, n int, tier string) []string { return genE2EV2(r, n, tier, p) }
 			rule += "; event times uniform / clustered with outlier blocks (block time ranges not monotonic) / on a grid; query windows whole, cutting, or snapped onto event timestamps (±1)"
+			if p == "c03" || p == "c04" {
+				rule += "; a sixth of the cases: 2–3 segments disjoint in time sharing most values (integers also beyond 2^53, decimals, numeric text, text, a column mixing numbers and numeric text) and `stats` without by over windows that ENCLOSE one rotated segment (answered from its .sst file) and CUT THROUGH a neighbour (recomputed from records) in one query, next to all-.sst and records-only windows: count, sum, min, max, avg, dc, count(field) over every column kind (tag sst-and-raw-in-one-query)"
+			}
 			switch p {
 			case "c01":
 				rule += "; a column whose blocks hold numbers only, numeric-looking strings only (007, +5, 1e3, 5., .5, 1E2 …), both, or text"
@@ -904,7 +907,13 @@ func e2eSiblingFilter(r *rand.Rand, f string) string {
 
 func genE2EV2(r *rand.Rand, n int, tier, profile string) []string {
 	var out []string
-	for c := 0; c < n; c++ {
+	// a sixth of the cases of c03 / c04 (generated after the others, from the same PRNG): statistics answered from the
+	// pre-aggregated .sst file of one segment and recomputed from the records of another one IN ONE QUERY (genE2ESstRaw)
+	nSstRaw := 0
+	if profile == "c03" || profile == "c04" {
+		nSstRaw = n / 6
+	}
+	for c := 0; c < n-nSstRaw; c++ {
 		g := &e2eGen{r: r, profile: profile}
 		nev := 1 + r.Intn(40)
 		if r.Intn(5) == 0 {
@@ -912,6 +921,9 @@ func genE2EV2(r *rand.Rand, n int, tier, profile string) []string {
 		}
 		toks := []string{"e2e"}
 		if card := []int{0, 0, 3, 5, 1000}[r.Intn(5)]; card > 0 {
+			if card < e2eMinCardWithBoolMix && profile == "c01" {
+				card = e2eMinCardWithBoolMix // profile c01 has columns (arr.<k>) that hold booleans, numbers and strings
+			}
 			toks = append(toks, fmt.Sprintf("card=%d", card))
 		}
 		if profile == "c03" && r.Intn(5) == 0 {
@@ -1189,7 +1201,202 @@ func genE2EV2(r *rand.Rand, n int, tier, profile string) []string {
 		}
 		out = append(out, strings.Join(toks, " "))
 	}
+	for c := 0; c < nSstRaw; c++ {
+		out = append(out, genE2ESstRaw(r, profile))
+	}
 	return out
+}
+
+// genE2ESstRaw: `* | stats <aggregates>` (no by clause) is answered per segment: a rotated segment whose time range the
+// query window ENCLOSES contributes its ingest-time statistics (the .sst file: writer.addSegStatsNums / addSegStatsStrIngestion),
+// a segment the window CUTS THROUGH is recomputed from its records (stats.AddSegStatsNums / AddSegStatsStr); the per-segment
+// statistics (count, sum, min, max, the distinct-value sketch) are merged.  Built by construction: 2–3 segments that are
+// disjoint in time (several blocks each, ingested in any order, the last one rotated or still open), every column drawing
+// from a small pool so that the segments share most values — integers (also beyond 2^53), decimals, numeric text (plain and
+// at the edges of the number grammar), text, and for c04 a column mixing numbers and numeric text — and windows that
+// enclose one rotated segment and end (or start) INSIDE a neighbour, next to the whole window (every segment from .sst)
+// and a window inside one segment (records only).  Every aggregation over every column kind; c03: the same events as one
+// segment in time order as second layout.  Tag sst-and-raw-in-one-query (computed from the op line, e2eSegSelectTags).
+func genE2ESstRaw(r *rand.Rand, profile string) string {
+	toks := []string{"e2e"}
+	if card := []int{0, 0, 5, 1000}[r.Intn(4)]; card > 0 {
+		toks = append(toks, fmt.Sprintf("card=%d", card))
+	}
+	toks = append(toks, "H")
+	// value pools
+	var ints, decs, nstr, txt, mix []string
+	for k, n := 0, 2+r.Intn(6); k < n; k++ {
+		v := int64(r.Intn(30) - 6)
+		if r.Intn(12) == 0 {
+			v = []int64{9007199254740993, -9007199254740993, 4611686018427387904, 255, 256, 65536}[r.Intn(6)]
+		}
+		ints = append(ints, fmt.Sprintf("i%d", v))
+		decs = append(decs, "d"+dyadic(r))
+		if r.Intn(3) == 0 {
+			nstr = append(nstr, "s"+hexs(e2eNumLooking[r.Intn(len(e2eNumLooking))]))
+		} else {
+			nstr = append(nstr, "s"+hexs(strconv.Itoa(r.Intn(20)-3)))
+		}
+		txt = append(txt, "s"+hexs(vocab[r.Intn(len(vocab))]))
+		if r.Intn(2) == 0 {
+			mix = append(mix, fmt.Sprintf("i%d", r.Intn(12)-2))
+		} else {
+			mix = append(mix, "s"+hexs(strconv.Itoa(r.Intn(12)-2)))
+		}
+	}
+	type sg struct {
+		lo, hi  uint64
+		ts      []uint64
+		rotated bool
+	}
+	nseg := 2 + r.Intn(2)
+	segs := make([]sg, nseg)
+	t := e2eBase + uint64(r.Intn(2000))
+	for k := range segs {
+		w := []uint64{3, 40, 500, 4000}[r.Intn(4)] + uint64(r.Intn(50))
+		segs[k] = sg{lo: t, hi: t + w, rotated: true}
+		t += w + []uint64{1, 2, 100, 3000}[r.Intn(4)]
+	}
+	order := r.Perm(nseg)
+	if r.Intn(2) == 0 {
+		sort.Ints(order)
+	}
+	vid := 0
+	var evToks []string
+	for oi, k := range order {
+		s := &segs[k]
+		ne := 4 + r.Intn(8)
+		for j := 0; j < ne; j++ {
+			ts := s.lo
+			switch {
+			case j == 1:
+				ts = s.hi
+			case j > 1:
+				ts = s.lo + uint64(r.Int63n(int64(s.hi-s.lo+1)))
+			}
+			s.ts = append(s.ts, ts)
+			vid++
+			pick := func(pool []string) string {
+				if j < len(pool) && r.Intn(4) != 0 {
+					return pool[j] // the first events of every segment walk through the pool: shared values by construction
+				}
+				return pool[r.Intn(len(pool))]
+			}
+			fs := []kv{{"i", pick(ints)}, {"f", pick(decs)}, {"s", pick(txt)}}
+			if r.Intn(5) != 0 {
+				fs = append(fs, kv{"ns", pick(nstr)})
+			}
+			if profile == "c04" && r.Intn(4) != 0 {
+				fs = append(fs, kv{"mx", pick(mix)})
+			}
+			if r.Intn(3) == 0 {
+				fs = append(fs, kv{"x", fmt.Sprintf("i%d", r.Intn(4))})
+			}
+			tk := e2eEvent{vid: vid, ts: ts, fields: fs}.token()
+			toks = append(toks, tk)
+			evToks = append(evToks, tk)
+			if j == ne-1 || r.Intn(4) == 0 {
+				toks = append(toks, "send")
+				if j < ne-1 && r.Intn(2) == 0 {
+					toks = append(toks, "fl") // a block boundary inside the segment
+				}
+			}
+		}
+		if oi == nseg-1 && r.Intn(3) == 0 {
+			toks = append(toks, "fl")
+			s.rotated = false
+		} else {
+			toks = append(toks, "ro")
+		}
+	}
+	if profile == "c03" {
+		// the SAME events as ONE segment, in time order
+		toks = append(toks, "H2")
+		if c2 := []int{0, 4, 1000}[r.Intn(3)]; c2 > 0 {
+			toks = append(toks, fmt.Sprintf("card=%d", c2))
+		}
+		evs := append([]string{}, evToks...)
+		sort.SliceStable(evs, func(a, b int) bool {
+			x, _ := strconv.ParseUint(strings.SplitN(evs[a], "/", 4)[2], 10, 64)
+			y, _ := strconv.ParseUint(strings.SplitN(evs[b], "/", 4)[2], 10, 64)
+			return x < y
+		})
+		for i, tk := range evs {
+			toks = append(toks, tk)
+			if r.Intn(5) == 0 || i == len(evs)-1 {
+				toks = append(toks, "send")
+			}
+		}
+		toks = append(toks, []string{"fl", "ro"}[r.Intn(2)])
+	}
+	toks = append(toks, "Q")
+	// windows
+	inner := func(s sg, after bool) (uint64, bool) { // a bound strictly inside s that leaves events of s on both sides
+		var c []uint64
+		for _, ts := range s.ts {
+			if after && ts > s.lo { // window starts here: the event at s.lo stays outside
+				c = append(c, ts)
+			}
+			if !after && ts < s.hi { // window ends here: the event at s.hi stays outside
+				c = append(c, ts)
+			}
+		}
+		if len(c) == 0 {
+			return 0, false
+		}
+		return c[r.Intn(len(c))], true
+	}
+	var wins [][2]uint64
+	var rot []int
+	for k, s := range segs {
+		if s.rotated {
+			rot = append(rot, k)
+		}
+	}
+	for tries := 0; tries < 6 && len(wins) < 2; tries++ {
+		e := rot[r.Intn(len(rot))]
+		if e+1 < nseg && (e == 0 || r.Intn(2) == 0) {
+			if b, ok := inner(segs[e+1], false); ok {
+				a := []uint64{segs[e].lo, segs[e].lo - 1, e2eBase - 1000}[r.Intn(3)]
+				wins = append(wins, [2]uint64{a, b})
+			}
+		} else if e > 0 {
+			if a, ok := inner(segs[e-1], true); ok {
+				b := []uint64{segs[e].hi, segs[e].hi + 1, t + 1000}[r.Intn(3)]
+				wins = append(wins, [2]uint64{a, b})
+			}
+		}
+	}
+	mixedN := len(wins)
+	wins = append(wins, [2]uint64{e2eBase - 1000, t + 1000}) // every rotated segment from its .sst
+	if a, ok := inner(segs[r.Intn(nseg)], true); ok {
+		wins = append(wins, [2]uint64{a, a + uint64(r.Intn(30))}) // records only
+	}
+	// (dc over a column holding numeric text — ns, mx — always as an aggregate list of its own: the comparison of the two
+	// layouts of c03 sees whole rows only.  ns: class e2e/stats/dc-over-numeric-text, repaired by patch c04-16; mx, numbers
+	// next to numeric text: recorded class e2e/stats/dc-over-numbers-and-numeric-text)
+	sets := []string{"count+dc.i+dc.f", "dc.s+cnt.ns", "sum.i+min.i+max.i+avg.i", "sum.f+min.f+max.f+avg.f", "sum.ns+min.ns+max.ns+avg.ns+cnt.ns",
+		"dc.i+dc.x+cnt.x", "dc.f+dc.s+count", "dc.i", "dc.ns"}
+	if profile == "c04" {
+		sets = append(sets, "sum.mx+min.mx+max.mx+avg.mx+cnt.mx", "dc.mx")
+	}
+	for wi, w := range wins {
+		nq := 2
+		if wi < mixedN {
+			nq = 4
+			toks = append(toks, fmt.Sprintf("q/0/1000/%d/%d/all/stats:%s:-", w[0], w[1], sets[0]))
+		}
+		for _, k := range r.Perm(len(sets))[:nq] {
+			toks = append(toks, fmt.Sprintf("q/0/1000/%d/%d/all/stats:%s:-", w[0], w[1], sets[k]))
+		}
+		if wi < mixedN && r.Intn(2) == 0 {
+			toks = append(toks, fmt.Sprintf("q/0/1000/%d/%d/all/tc:%d:count+dc.i:-", w[0], w[1], []uint64{50, 1000, 60000}[r.Intn(3)]))
+		}
+		if wi < mixedN && r.Intn(3) == 0 {
+			toks = append(toks, fmt.Sprintf("q/0/1000/%d/%d/all/stats:dc.i+count:s", w[0], w[1])) // (group-by: never from .sst)
+		}
+	}
+	return strings.Join(toks, " ")
 }
 
 // ---------------------------------------------------------------- generator: segment selection by time (profile cseg)
@@ -1532,6 +1739,34 @@ func e2eSegSelectTags(f []string, tags map[string]bool) {
 				for _, c := range segs[:nrot] {
 					if a.hi > b.hi && b.hi > c.hi && ov(a) && !ov(b) && ov(c) {
 						tags["seg-select/window-overlaps-rotated-segments-not-adjacent-by-end"] = true
+					}
+				}
+			}
+		}
+		if len(p) == 7 && p[5] == "all" && strings.HasPrefix(p[6], "stats:") && strings.HasSuffix(p[6], ":-") {
+			// statistics without by over a match-all search: a rotated segment the window encloses is answered from its .sst
+			// file, a segment the window cuts through from its records
+			enclosed, cut := false, false
+			for _, a := range segs[:nrot] {
+				if qs <= a.lo && a.hi <= qe {
+					enclosed = true
+				}
+			}
+			for _, a := range segs {
+				if ov(a) && !(qs <= a.lo && a.hi <= qe) {
+					cut = true
+				}
+			}
+			if enclosed && cut {
+				tags["sst-and-raw-in-one-query"] = true
+				for _, a := range strings.Split(strings.Split(p[6], ":")[1], "+") {
+					fn, col, _ := strings.Cut(a, ".")
+					kind := map[string]string{"i": "integers", "big": "integers", "x": "integers", "f": "decimals", "m": "decimals", "ns": "numeric-text", "mx": "numbers-and-numeric-text", "s": "text"}[col]
+					if fn == "count" {
+						kind = "events"
+					}
+					if kind != "" {
+						tags["sst-and-raw-in-one-query/"+fn+"-of-"+kind] = true
 					}
 				}
 			}
@@ -2036,6 +2271,9 @@ func execE2E(line string) Result {
 	if len(f) < 3 || f[0] != "e2e" {
 		return Result{Out: "bad-op"}
 	}
+	if e2eCardTooSmall(f[1:], f[1:]) { // (a card= token of either layout; the events are the same in both)
+		return Result{Out: "bad-op"}
+	}
 	// optional second layout: e2e <cfg> H <hist> H2 <cfg2…> <hist2> Q <queries>
 	h2 := -1
 	qpos := -1
@@ -2088,6 +2326,63 @@ func canonSeg(seg string) string {
 		return "kind=ids ids=" + strings.Join(ids, ",")
 	}
 	return seg
+}
+
+// e2eMinCardWithBoolMix: a dictionary limit (cfg card=) below 4 is not combined with a column that holds a boolean (or a null) in
+// one event and a number or a string in another.  With a limit of 1–3 a block whose column holds nothing but true / false / null
+// is written in the columnar encoding (deCount ≥ limit) and writeNonDeBloom then sizes the column's bloom for ZERO words:
+// bloom.NewWithEstimates(0, p) has k = uint(+Inf) = 2^63 hash functions.  The object stays in wipBlock.columnBlooms, and when
+// a later block of the segment mixes numbers and text in that column, convertColumnToStrings inserts into it and never
+// returns (the flush hangs).  With the production limit (wipCardLimit = 501, set by nothing but tests) the state is
+// unreachable: on the ingest path every value goes through checkAddDictEnc, so a block is columnar only with ≥ 501 distinct
+// values; without a string these are numbers, and a column with a bloom AND numbers is consolidated first (all numbers:
+// the bloom is dropped; otherwise everything becomes text, > 0 words).  A harness restriction (the same as in suite tlvseg,
+// c01_tlvseg.go), applied by the generators and refused by Exec and by the Oracle (Oracle/E2E.lean `cardTooSmall`) alike.
+const e2eMinCardWithBoolMix = 4
+
+// e2eCardTooSmall: a card= token with 0 < card < 4 and a column holding a boolean or a null in one event and a number or a
+// string in another one (null: a block of nothing but nulls is columnar under card=1, and with a bloom left over from an
+// earlier block of strings the same happens)
+func e2eCardTooSmall(cfg []string, hist []string) bool {
+	small := false
+	for _, c := range cfg {
+		if strings.HasPrefix(c, "card=") {
+			if n, err := strconv.Atoi(c[5:]); err == nil && n > 0 && n < e2eMinCardWithBoolMix {
+				small = true
+			}
+		}
+	}
+	if !small {
+		return false
+	}
+	hasBool, hasOther := map[string]bool{}, map[string]bool{}
+	for _, t := range hist {
+		if !strings.HasPrefix(t, "ev/") {
+			continue
+		}
+		p := strings.SplitN(t, "/", 4)
+		if len(p) != 4 || p[3] == "-" {
+			continue
+		}
+		for _, x := range strings.Split(p[3], ",") {
+			y := strings.SplitN(x, "~", 2)
+			if len(y) != 2 || y[1] == "" {
+				continue
+			}
+			switch y[1][0] {
+			case 'b', 'z':
+				hasBool[y[0]] = true
+			case 'i', 'd', 's', 'r':
+				hasOther[y[0]] = true
+			}
+		}
+	}
+	for c := range hasBool {
+		if hasOther[c] {
+			return true
+		}
+	}
+	return false
 }
 
 func execE2ELayout(f []string) Result {
